@@ -34,11 +34,15 @@ enum Step {
     Wait(u64),
     /// judge the device as it stands (and its durable prefix) without calling flush
     Probe,
+    /// two threads call flush() at the same time (the second 5 ms after the first); an Ok from EITHER of them
+    /// acknowledges everything accepted before
+    Flush2,
+    /// from here on every journal write fails before reaching the device (true) / the run's own plan applies again (false)
+    FailJournal(bool),
 }
 
 /// workloads 6 and 7 run with several flush workers (keys spread over all shards, background ticks between the
 /// steps); their I/O calls cannot be numbered, so they only get class-wide plans
-#[allow(dead_code)]
 fn multi_worker(id: u64) -> bool {
     id == 6 || id == 7
 }
@@ -62,7 +66,7 @@ fn workload(id: u64) -> (u64, Vec<Step>, Vec<Step>) {
         a.extend((0..n).map(|i| Step::Put(i, 330 + i)));
         a.push(Step::Flush);
         let mut b: Vec<Step> = (0..n).map(|i| Step::Put(i, 5000 + i)).collect();
-        b.extend([Step::Flush, Step::Wait(350), Step::Probe, Step::Flush, Step::Wait(250), Step::Probe]);
+        b.extend([Step::Flush, Step::Wait(350), Step::Probe, Step::Flush2, Step::Wait(250), Step::Probe]);
         return (512, a, b);
     }
     if id == 7 {
@@ -84,7 +88,7 @@ fn workload(id: u64) -> (u64, Vec<Step>, Vec<Step>) {
                 b.extend([Step::Wait(150), Step::Probe]);
             }
         }
-        b.extend([Step::Flush, Step::Wait(300), Step::Probe, Step::Put(0, 150), Step::Del(1), Step::Flush, Step::Wait(200), Step::Probe]);
+        b.extend([Step::Flush2, Step::Wait(300), Step::Probe, Step::Put(0, 150), Step::Flush, Step::Del(1), Step::Del(5), Step::Del(9), Step::FailJournal(true), Step::Flush2, Step::FailJournal(false), Step::Wait(200), Step::Probe, Step::Flush]);
         return (1024, a, b);
     }
     match id % 5 {
@@ -204,6 +208,7 @@ pub fn child(args: &Args) -> ! {
         }
     };
     let mut cx = Ctx {
+        plan: FaultPlan::default(),
         store: &store,
         mon: &mon,
         base: &base,
@@ -237,7 +242,13 @@ pub fn child(args: &Args) -> ! {
     for e in plan.enter.iter_mut() {
         e.0 += enter_before;
     }
+    cx.plan = plan.clone();
     mon.set_plan(plan);
+    if multi_worker(wid) {
+        // hold the retirement pass between taking its entries and writing the markers, so that the second of two
+        // concurrent flush() calls arrives while the first one's retirements are in flight
+        hub().set_sched(Some(Arc::new(crate::mon::SchedCtl::new(wid, 0, 0).target("retire.before_markers", 600, 20_000))));
+    }
     out["uses_uring"] = json!(store.verif_uses_uring());
     for s in &phase_b {
         cx.step(s, true);
@@ -323,6 +334,7 @@ pub fn child(args: &Args) -> ! {
 
 
 struct Ctx<'a> {
+    plan: FaultPlan,
     store: &'a feoxdb::FeoxStore,
     mon: &'a crate::mon::FileMon,
     base: &'a [u8],
@@ -365,6 +377,14 @@ impl Ctx<'_> {
                     }
                 }
             }
+            Step::FailJournal(on) => {
+                let mut p = self.plan.clone();
+                if *on {
+                    p.class = Some((IoClass::JournalWrite, 0, u32::MAX / 2, Fault::Before));
+                }
+                self.mon.set_plan(p);
+                return;
+            }
             Step::Wait(ms) => {
                 std::thread::sleep(std::time::Duration::from_millis(*ms));
                 return;
@@ -386,8 +406,22 @@ impl Ctx<'_> {
                 self.images.push(json!({"path": p2, "kind": "asis-at-probe-after-background-passes", "lo": self.last_ack_snapshot, "hi": snap_idx, "faulted": faulted}));
                 return;
             }
-            Step::Flush => {
-                let r = self.store.flush();
+            Step::Flush | Step::Flush2 => {
+                let r = if matches!(s, Step::Flush2) {
+                    let store = self.store;
+                    let (ra, rb) = std::thread::scope(|sc| {
+                        let hb = sc.spawn(move || {
+                            std::thread::sleep(std::time::Duration::from_millis(5));
+                            store.flush()
+                        });
+                        let ra = store.flush();
+                        (ra, hb.join().unwrap_or(Err(feoxdb::FeoxError::InvalidOperation)))
+                    });
+                    self.flushes.push(format!("concurrent pair: {:?} / {:?}", ra.as_ref().map_err(err_name), rb.as_ref().map_err(err_name)));
+                    if ra.is_ok() { ra } else { rb }
+                } else {
+                    self.store.flush()
+                };
                 self.flushes.push(format!("{:?}", r.as_ref().map_err(err_name)));
                 if let Err(feoxdb::FeoxError::IndeterminateWrite(_)) = &r {
                     self.indeterminate = true;
